@@ -12,6 +12,10 @@
    derives key and nonce itself, through the callbacks; if it ever derived other ones the
    guard yields a zero keystream and the rows differ).  brotli is not modelled: archives with
    the COMPRESS layer are not compared by the harness (dec := identity here). *)
+From MLA Require Import Limit.
+From MLAGen Require Src.
+(* executable entry points: the production value of BINCODE_MAX_DESERIALIZE (the same in both flavours), file-local *)
+#[local] Instance RUN_LIMIT : Limit := MLAGen.Src.BINCODE_MAX_DESERIALIZE_prod.
 From MLA Require Import Base Stream Inst InstGcm Format Ecies Archive ArchiveInst RunC01 Reader CApi CApiRead.
 From MLA.Concrete Require Aes.
 From MLAGen Require Src.
